@@ -954,3 +954,217 @@ Proof.
     unfold idx_value. rewrite (signed32_small w H2). rewrite Lr. lia.
   - rewrite Hu. eexists. reflexivity.
 Qed.
+
+(* ================= alias spellings in whole headers ================= *)
+Inductive alias_line : list string -> list string -> Prop :=
+| al_same l : alias_line l l
+| al_scalar k k' n : same_type k k' -> alias_line ["property"; k; n]%string ["property"; k'; n]%string
+| al_list c c' t t' n : same_type c c' -> same_type t t' ->
+    alias_line ["property"; "list"; c; t; n]%string ["property"; "list"; c'; t'; n]%string.
+
+Lemma typed_not_list a t : parse_sty a = Ok t -> seqb (lower a) "list" = false.
+Proof.
+  intros H. destruct (seqb (lower a) "list") eqn:E; [|reflexivity]. apply String.eqb_eq in E.
+  unfold parse_sty in H. rewrite E in H. discriminate H.
+Qed.
+
+Lemma hstep_alias l l' st : alias_line l l' -> hstep l' st = hstep l st /\ is_end l' = is_end l.
+Proof.
+  intros [l0|k k' n [t [H1 H2]]|c c' t t' n [tc [C1 C2]] [tt [T1 T2]]]; [split; reflexivity| |].
+  - split; [|reflexivity]. unfold hstep.
+    change (seqb "property" "comment") with false. change (seqb "property" "element") with false.
+    change (seqb "property" "property") with true. cbv iota. unfold parse_property.
+    rewrite (typed_not_list k t H1), (typed_not_list k' t H2), H1, H2. reflexivity.
+  - split; [|reflexivity]. unfold hstep.
+    change (seqb "property" "comment") with false. change (seqb "property" "element") with false.
+    change (seqb "property" "property") with true. cbv iota. unfold parse_property.
+    change (seqb (lower "list") "list") with true. cbv iota. rewrite C1, C2, T1, T2. reflexivity.
+Qed.
+
+Lemma hloop_alias ls ls' : Forall2 alias_line ls ls' -> forall st, hloop ls' st = hloop ls st.
+Proof.
+  induction 1 as [|l l' ls ls' A F IH]; intros st; [reflexivity|]. cbn [hloop].
+  destruct (hstep_alias l l' st A) as [E1 E2]. rewrite E1, E2.
+  destruct (is_end l); [reflexivity|]. destruct (hstep l st); cbn [rbind]; [apply IH|reflexivity].
+Qed.
+
+Lemma parse_header_alias magic fl ls ls' : Forall2 alias_line ls ls' ->
+  parse_header (magic :: fl :: ls') = parse_header (magic :: fl :: ls).
+Proof.
+  intros F. unfold parse_header. destruct magic as [|m [|? ?]]; try reflexivity.
+  destruct (negb (seqb m "ply")); [reflexivity|].
+  assert (S : forall x, skip_blank (fl :: x) = match fl with [] => skip_blank x | _ => fl :: x end) by (intros; destruct fl; reflexivity).
+  rewrite !S. destruct fl as [|f0 fr].
+  - (* blank format line: the first non-blank line of the body is taken as format line; not needed, handled generally *)
+    clear S. revert ls' F. induction ls as [|l ls IH]; intros ls' F; inversion F as [|? l' ? ls2 A F']; subst; [reflexivity|].
+    cbn [skip_blank]. destruct l as [|x xs].
+    + inversion A; subst. cbn [skip_blank]. apply IH, F'.
+    + assert (l' <> []) by (inversion A; subst; discriminate).
+      destruct l' as [|y ys]; [congruence|].
+      assert (Pf : parse_format (y :: ys) = parse_format (x :: xs)).
+      { inversion A; subst; try reflexivity. }
+      rewrite Pf. destruct (parse_format (x :: xs)); cbn [rbind]; [|reflexivity]. rewrite (hloop_alias _ _ F'). reflexivity.
+  - destruct (parse_format (f0 :: fr)); cbn [rbind]; [|reflexivity]. rewrite (hloop_alias _ _ F). reflexivity.
+Qed.
+
+(* ================= blank lines inside ascii bodies ================= *)
+Definition nonblank {A} (l : list A) : bool := match l with [] => false | _ => true end.
+Definition drop_blanks {A} (ls : list (list A)) : list (list A) := filter nonblank ls.
+
+Lemma rva_drop bs np : forall lines n,
+  match read_vertices_ascii bs np lines n, read_vertices_ascii bs np (drop_blanks lines) n with
+  | Ok (rows, r), Ok (rows', r') => rows = rows' /\ drop_blanks r = r'
+  | Err e, Err e' => e = e'
+  | _, _ => False
+  end.
+Proof.
+  induction lines as [|l ls IH]; intros n.
+  - cbn. destruct n; [split; reflexivity|reflexivity].
+  - destruct l as [|t ts].
+    + (* a blank line *)
+      cbn [drop_blanks filter nonblank]. fold (drop_blanks ls).
+      destruct n as [|n'].
+      * cbn [read_vertices_ascii]. specialize (IH 0%nat).
+        destruct ls as [|l2 ls2]; [cbn; split; reflexivity|].
+        cbn [read_vertices_ascii] in IH.
+        destruct (read_vertices_ascii bs np (drop_blanks (l2 :: ls2)) 0) as [[rows' r']|e'] eqn:E; [|contradiction].
+        destruct IH as [<- <-]. split; [reflexivity|]. reflexivity.
+      * cbn [read_vertices_ascii]. apply IH.
+    + cbn [drop_blanks filter nonblank]. fold (drop_blanks ls).
+      destruct n as [|n'].
+      * cbn [read_vertices_ascii]. split; reflexivity.
+      * cbn [read_vertices_ascii]. destruct (List.length (t :: ts) <? np)%nat; [reflexivity|].
+        destruct (mapR (fun b => read_ascii_row b (t :: ts)) bs); cbn [rbind]; [|reflexivity].
+        specialize (IH n').
+        destruct (read_vertices_ascii bs np ls n') as [[rows r]|e], (read_vertices_ascii bs np (drop_blanks ls) n') as [[rows' r']|e'];
+          cbn [rbind]; try contradiction; [|exact IH].
+        destruct IH as [<- <-]. split; reflexivity.
+Qed.
+
+Lemma faces_drop rs ip tp : forall lines n st,
+  faces_ascii rs ip tp (drop_blanks lines) n st = faces_ascii rs ip tp lines n st.
+Proof.
+  induction lines as [|l ls IH]; intros n st; [reflexivity|].
+  destruct l as [|t ts]; cbn [drop_blanks filter nonblank]; fold (drop_blanks ls).
+  - destruct n as [|n'].
+    + cbn [faces_ascii]. rewrite IH. destruct ls; reflexivity.
+    + cbn [faces_ascii]. apply IH.
+  - destruct n as [|n']; [reflexivity|]. cbn [faces_ascii].
+    destruct (face_ascii rs 0 ip tp (t :: ts) st) as [st'|]; cbn [rbind]; [|reflexivity].
+    destruct (face_out _ st') as [[ix uv]|]; cbn [rbind]; [|reflexivity]. rewrite IH. reflexivity.
+Qed.
+
+Theorem body_blanks_ignored_proof : forall gs u h lines,
+  read_body gs u h (BodyAscii lines) = read_body gs u h (BodyAscii (drop_blanks lines)).
+Proof.
+  intros gs u h lines. unfold read_body.
+  destruct (find_last_elem "vertex" (h_elems h) None) as [ve|]; cbn [of_opt rbind]; [|reflexivity].
+  destruct (negb (all_scalar (e_props ve))); [reflexivity|].
+  destruct (e_count ve <? 0)%Z; [reflexivity|].
+  destruct (h_fmt h); try reflexivity.
+  destruct (build_readers false gs u (e_props ve)) as [bs|]; cbn [rbind]; [|reflexivity].
+  pose proof (rva_drop bs (List.length (e_props ve)) lines (Z.to_nat (e_count ve))) as R.
+  destruct (read_vertices_ascii bs (List.length (e_props ve)) lines (Z.to_nat (e_count ve))) as [[rows r]|e],
+           (read_vertices_ascii bs (List.length (e_props ve)) (drop_blanks lines) (Z.to_nat (e_count ve))) as [[rows' r']|e'];
+    cbn [rbind]; try contradiction; [|congruence].
+  destruct R as [<- <-].
+  destruct (find_last_elem "face" (h_elems h) None) as [fe|]; [|reflexivity].
+  destruct (face_setup fe) as [[[rs ip] tp]|]; cbn [rbind]; [|reflexivity].
+  rewrite faces_drop. reflexivity.
+Qed.
+
+(* ================= the whole-file statement, composed ================= *)
+(* header text another tool may write for the header h: alias spellings of the type names, then comment / obj_info /
+   blank lines anywhere after the format line *)
+Definition header_variant (h : header) (hl : list (list string)) : Prop :=
+  exists aliased noisy,
+    Forall2 alias_line (header_body h) aliased /\ with_noise aliased noisy /\
+    hl = ["ply"%string] :: ["format"%string; fmt_name (h_fmt h); "1.0"%string] :: noisy.
+(* body another tool may write for the body b: the same, or (ascii) with blank lines anywhere *)
+Definition body_variant (b b' : body) : Prop :=
+  b' = b \/ exists lines lines', b = BodyAscii lines /\ b' = BodyAscii lines' /\ drop_blanks lines' = lines.
+
+Lemma header_variant_parse h hl : header_variant h hl ->
+  strip_comments (parse_header hl) = strip_comments (parse_header (render_header h)).
+Proof.
+  intros [aliased [noisy [A [W ->]]]]. unfold render_header. fold (header_body h).
+  rewrite (header_noise_ignored_proof _ _ aliased noisy); [|discriminate|exact W].
+  rewrite (parse_header_alias _ _ _ _ A). reflexivity.
+Qed.
+
+Lemma read_mesh_variant l1 l2 b1 b2 :
+  strip_comments (parse_header l1) = strip_comments (parse_header l2) ->
+  (forall h, read_body default_groups true h b1 = read_body default_groups true h b2) ->
+  read_mesh {| pf_header := l1; pf_body := b1 |} = read_mesh {| pf_header := l2; pf_body := b2 |}.
+Proof.
+  intros H B. unfold read_mesh. cbn [pf_header pf_body].
+  destruct (parse_header l1) as [h1|e1], (parse_header l2) as [h2|e2]; cbn [strip_comments rbind] in *; try discriminate H.
+  - injection H as Hf He. rewrite (B h1). apply read_body_ext; assumption.
+  - congruence.
+Qed.
+
+Theorem whole_file_variants_proof : forall a hl b',
+  header_variant (header_of a) hl -> body_variant (enc_body a) b' ->
+  read_mesh {| pf_header := hl; pf_body := b' |} = read_mesh (encode a).
+Proof.
+  intros a hl b' Hh Hb. unfold encode. apply read_mesh_variant; [apply header_variant_parse, Hh|].
+  intros h. destruct Hb as [->|[lines [lines' [E1 [-> D]]]]]; [reflexivity|].
+  rewrite E1, <- D. apply body_blanks_ignored_proof.
+Qed.
+
+(* ================= the property, packaged ================= *)
+(* the vertex element: at least one property, distinct names, types uchar / int / float / double in any order,
+   every record's values fit their declared types *)
+Definition vertex_element_ok (a : absfile) : Prop :=
+  a_vprops a <> [] /\ NoDup (names (a_vprops a)) /\ supported (a_vprops a) /\
+  Forall (record_ok (a_vprops a)) (a_verts a).
+(* faces name existing vertices (vertex numbers below 2^31) *)
+Definition faces_in_range (a : absfile) (ip : nat) : Prop :=
+  Forall (fun f => Forall (fun w => w < N.of_nat (length (a_verts a)) /\ w < 2 ^ 31) (nth ip f [])) (a_faces a).
+(* the face element: absent; or list properties (lower-case names, uchar/int/uint counts) with the index list
+   (int/uint items) at position ip and faces of 3 or 4 corners; or additionally a float/double texcoord list at
+   position tk with two coordinates per corner *)
+Definition face_element_ok (a : absfile) : Prop :=
+  (a_fprops a = None /\ a_faces a = []) \/
+  (exists fps ip ct lt,
+     a_fprops a = Some fps /\ Forall (fun p => lower (snd p) = snd p) fps /\
+     last_index is_indices (lists_of fps) 0 None = Some ip /\ last_index is_texcoord (lists_of fps) 0 None = None /\
+     nth_error (rs_of fps) ip = Some (ct, lt) /\ index_ty_ok lt = true /\
+     Forall (face_ok (rs_of fps) ip) (a_faces a) /\ faces_in_range a ip) \/
+  (exists fps ip tk ct lt ctt ltt,
+     a_fprops a = Some fps /\ Forall (fun p => lower (snd p) = snd p) fps /\
+     last_index is_indices (lists_of fps) 0 None = Some ip /\ last_index is_texcoord (lists_of fps) 0 None = Some tk /\
+     nth_error (rs_of fps) ip = Some (ct, lt) /\ index_ty_ok lt = true /\
+     nth_error (rs_of fps) tk = Some (ctt, ltt) /\ (ltt = Float \/ ltt = Double) /\
+     Forall (tex_face_ok (rs_of fps) ip tk) (a_faces a) /\ faces_in_range a ip).
+(* THE EXCLUSION (known finding ply:ascii-uchar-scalar-raw): in an ascii file no uchar property is read through a
+   Vector1 reader, i.e. every uchar property belongs to an accepted vector group *)
+Definition known_finding_excluded (a : absfile) : Prop :=
+  Forall (raw_free (a_fmt a)) (spec_entries default_groups (a_vprops a)).
+
+Lemma in_range_small a ip : faces_in_range a ip -> Forall (fun f => Forall (fun w => w < 2 ^ 31) (nth ip f [])) (a_faces a).
+Proof.
+  unfold faces_in_range. intros H. eapply Forall_impl; [|exact H]. intros f Hf. eapply Forall_impl; [|exact Hf]. intros w [_ Hw]. exact Hw.
+Qed.
+Lemma in_range_verts a ip : faces_in_range a ip -> Forall (fun f => Forall (fun w => w < N.of_nat (length (a_verts a))) (nth ip f [])) (a_faces a).
+Proof.
+  unfold faces_in_range. intros H. eapply Forall_impl; [|exact H]. intros f Hf. eapply Forall_impl; [|exact Hf]. intros w [Hw _]. exact Hw.
+Qed.
+
+Theorem property_proof : forall a hl b',
+  vertex_element_ok a -> face_element_ok a -> known_finding_excluded a ->
+  header_variant (header_of a) hl -> body_variant (enc_body a) b' ->
+  exists m, describe a = Ok m /\ read_mesh {| pf_header := hl; pf_body := b' |} = Ok m.
+Proof.
+  intros a hl b' [NE [ND [S R]]] Fe Raw Hh Hb. rewrite (whole_file_variants_proof a hl b' Hh Hb).
+  destruct Fe as [[Hn Hf]|[[fps [ip [ct [lt [Hp [Low [Hip [Htp [Nip [Ity [Fok Rg]]]]]]]]]]]|[fps [ip [tk [ct [lt [ctt [ltt [Hp [Low [Hip [Htp [Nip [Ity [Ntk [Flt [Fok Rg]]]]]]]]]]]]]]]]]].
+  - destruct (read_mesh_points_proof a) as [E [m Hm]]; [repeat split; assumption|].
+    exists m. split; [exact Hm|congruence].
+  - destruct (read_mesh_tris_proof a fps ip ct lt) as [E [m Hm]].
+    { unfold trimesh_ok. repeat split; try assumption. apply in_range_small, Rg. }
+    exists m. split; [exact Hm|congruence].
+  - assert (T : texmesh_ok a fps ip tk ct lt ctt ltt).
+    { unfold texmesh_ok. repeat split; try assumption. apply in_range_small, Rg. }
+    destruct (texmesh_loads_proof a fps ip tk ct lt ctt ltt T (in_range_verts a ip Rg)) as [m Hm].
+    exists m. split; [exact Hm|]. rewrite (read_mesh_tex_proof a fps ip tk ct lt ctt ltt T). exact Hm.
+Qed.
